@@ -1,6 +1,9 @@
 """Shared pieces for C07/C08: stub agents on the real CoherentFeedForwardLoop."""
 
 KINDS = ["EXECUTE", "PERMIT", "BLOCK", "FAILURE", "DEFER", "UNKNOWN", "RAISE"]
+# further exception types an agent may raise: whatever it is, the request must come back blocked
+RAISE_KINDS = {"RAISE": RuntimeError, "RAISE_TIMEOUT": TimeoutError, "RAISE_VALUE": ValueError, "RAISE_OS": ConnectionRefusedError,
+               "RAISE_STOP": StopIteration, "RAISE_KEY": KeyError, "RAISE_ASSERT": AssertionError}
 LOGICS = ["AND", "OR", "MAJORITY", "UNANIMOUS", "EXECUTOR_PRIORITY", "ASSESSOR_PRIORITY"]
 
 
@@ -16,8 +19,8 @@ class Stub:
         from operon_ai.core.types import ActionProtein
         self.calls += 1
         self.budget.consume(1, "stub")
-        if self.kind == "RAISE":
-            raise RuntimeError("agent crashed")
+        if self.kind in RAISE_KINDS:
+            raise RAISE_KINDS[self.kind]("agent crashed")
         return ActionProtein(self.kind, "payload-of-%s" % self.name, self.conf)
 
 
@@ -34,7 +37,7 @@ def make_loop(logic, breaker, threshold=5, timeout=60.0, cache=True):
 
 def permitted(logic, e, a):
     """Reference table from the C07 statement."""
-    if e == "RAISE" or a == "RAISE":
+    if e in RAISE_KINDS or a in RAISE_KINDS:
         return False
     ep = e in ("EXECUTE", "PERMIT")
     ap = a == "PERMIT"
